@@ -5,6 +5,14 @@ VERIF = os.path.dirname(os.path.dirname(os.path.abspath(__file__)))
 ALL = ["C%02d" % i for i in range(1, 21)]
 
 CLAIMED = {
+ "C02": dict(
+    text="Generated operation histories (model-based: initial allocation + 1-4 operations among refine(threshold, levels), uniform_refinement_depth, griddify, thresholds drawn from the current state) with an invariant checked after every step against the previous and the ORIGINAL allocation in Fraction arithmetic: parent containment, same tag and occupancy map, children tile their parent, module areas and centroids conserved, fixed cells uncut (griddify, refine < 1), no exception.",
+    note="Trusted: exact geometry, exact module area/centroid computed from the original snapshot. Fixed cells under uniform refinement / refine(1.0) are deliberately not asserted (spec conflict, DESIGN 4/C02).",
+    technique="stateful property-based testing (Hypothesis-generated operation sequences) with a conservation invariant", ref="4/C02"),
+ "C12": dict(
+    text="Generated allocations (empty maps, unequal boundary counts, slivers, fixed cells) driven through the refine-while-needed loop, uniform refinement and griddify; oracles: must_be_refined == 'refine changes it' at every repetition, a reference refinement written from the statement (which cells, how many pieces, reachable shapes by halving the longer side, depth, map), former-maximum depth for uniform refinement, and a no-crossing-boundary-line condition with the 1% sliver exception for griddify.",
+    note="Trusted: reference refinement (40 lines) and exact lattice coordinates of the case. Ties w == h accept either direction; the sliver exception is judged against the original cell's other side (weakest sound reading).",
+    technique="property-based testing (Hypothesis) against a reference model and a differential predicate-vs-operation relation", ref="4/C12"),
  "C05": dict(
     text="Generated well-formed netlists with an exact source model: every derived quantity (areas, areas by region, area-weighted centroids, kind flags, aspect ratio, per-module / all / fixed rectangle lists, nets, weights, wire length) is recomputed from the definition in Fractions / mpmath and compared; and the same documents with exactly one injected defect of each of 18 classes at a generated position must be rejected.",
     note="Trusted: the 60-line expected-value functions over the source model, mpmath sqrt. Rejection = any exception. Order of rectangles inside a module is not asserted.",
